@@ -867,6 +867,7 @@ func checkMiddlewareIDs(r *Report, m *spModel, rule string) {
 		seen := map[ssa.Value]bool{}
 		var appends []*ssa.Call
 		okShape := true
+		shapeWhy := "the ID slice has a source other than an empty literal extended by append"
 		var walk func(v ssa.Value)
 		walk = func(v ssa.Value) {
 			if seen[v] {
@@ -890,7 +891,13 @@ func checkMiddlewareIDs(r *Report, m *spModel, rule string) {
 					return // []string{}
 				}
 				okShape = false
-			case *ssa.Const, *ssa.MakeSlice:
+			case *ssa.Const:
+			case *ssa.MakeSlice:
+				// make([]string, n, ...) with n != 0 introduces n empty IDs
+				if !isIntConst(x.Len, 0) {
+					okShape = false
+					shapeWhy = "the ID slice is created with a non-zero length: it starts with empty request IDs, which the SP reads as 'unsolicited response acceptable'"
+				}
 			default:
 				okShape = false
 			}
@@ -898,7 +905,7 @@ func checkMiddlewareIDs(r *Report, m *spModel, rule string) {
 		walk(ids)
 		cons := fmt.Sprintf("%s: outstanding request IDs passed to ParseResponse", p.FnName(fn))
 		if !okShape {
-			r.Bad(rule, cons, p.InstrPos(cs.Instr.(ssa.Instruction)), "the ID slice has a source other than an empty literal extended by append")
+			r.Bad(rule, cons, p.InstrPos(cs.Instr.(ssa.Instruction)), shapeWhy)
 			continue
 		}
 		for _, ap := range appends {
